@@ -76,7 +76,7 @@ def _b_cases(tier):
     return cases
 
 
-def shards(tier):
+def _shards_main(tier):
     from mc import enumer
     from mc.ref import rc_cli_ref as C
     b = BOUNDS[tier]
@@ -436,7 +436,7 @@ def _b_case(acc, prog, args):
 
 # ------------------------------------------------------------------ contract
 
-def run_shard(shard, tier):
+def _run_shard_main(shard, tier):
     from mc import enumer
     from mc.ref import rc_cli_ref as C
     acc = Acc()
@@ -452,7 +452,7 @@ def run_shard(shard, tier):
     return acc.result()
 
 
-def recheck(case, tier):
+def _recheck_main(case, tier):
     from mc.ref import rc_cli_ref as C
     if case["part"] == "a":
         ref = C.parse(list(case["argv"]), case["tty"])
@@ -474,3 +474,63 @@ def snippet(d):
             f"p = subprocess.run([sys.executable, '-m', 'hy'] + {argv!r}, input={stdin!r}, capture_output=True, text=True)\n"
             "print(p.returncode, p.stdout, p.stderr[-500:])\n"
             "# C41: same stdout and exit status as under the other modes; sys.argv[1:] are the trailing arguments\n")
+
+
+# ------------------------------------------------------------------ the empty program (and a comment-only one) in every mode
+EMPTY_PROGRAMS = {"empty": "", "blank": " \n", "comment": "; nothing\n"}
+EMPTY_ARGS = [[], ["alpha"], ["alpha", "--spy", "-i"], ["-"], ["-c", "x"]]
+
+
+def shards(tier):
+    return list(_shards_main(tier)) + [["empty-program", k] for k in EMPTY_PROGRAMS]
+
+
+def _empty_case(acc, name, args, mode):
+    import os
+    import subprocess
+    from mc.ref import rc_modload as M
+    src = EMPTY_PROGRAMS[name]
+    d = _b_dir()
+    fname = "rc_empty_%s.hy" % name
+    M.write(os.path.join(d, fname), src)
+    if mode == "c":
+        argv, stdin = ["-c", src] + list(args), None
+    elif mode == "file":
+        argv, stdin = [fname] + list(args), None
+    elif mode == "stdin":
+        argv, stdin = ["-"] + list(args), src
+    else:
+        argv, stdin = ["-m", "rc-empty-%s" % name] + list(args), None
+    p = subprocess.run(M.hy_cmd() + argv, input=stdin if stdin is not None else "this text on stdin must not be run\n(print 99)\n",
+                       env=M.sub_env(), cwd=d, capture_output=True, text=True, timeout=600)
+    acc.states += 1
+    acc.transitions += 1
+    acc.traces += 1
+    acc.evaluations += 1
+    acc.nontrivial += 1
+    ok = p.returncode == 0 and p.stdout == ""
+    acc.outcome("empty:%s:%s" % (mode, "agree" if ok else "DIFFERS"))
+    if not ok:
+        acc.disagree("cli-empty-program-differs-between-modes", {"part": "empty", "name": name, "args": list(args), "mode": mode},
+                     "hy %s: exit status %r, stdout %r (an empty program must print nothing and exit 0 in every mode); stderr tail: %s"
+                     % (" ".join(map(repr, argv)), p.returncode, p.stdout[-200:], p.stderr[-300:]), sig="empty:%s" % mode, mode=mode)
+
+
+def run_shard(shard, tier):
+    if shard[0] == "empty-program":
+        from mc.ref import rc_cli_ref as C
+        acc = Acc()
+        for args in EMPTY_ARGS:
+            for mode in C.MODES:
+                _empty_case(acc, shard[1], args, mode)
+        acc.sample({"program": EMPTY_PROGRAMS[shard[1]], "trailing": EMPTY_ARGS[2]})
+        return acc.result()
+    return _run_shard_main(shard, tier)
+
+
+def recheck(case, tier):
+    if case.get("part") == "empty":
+        acc = Acc()
+        _empty_case(acc, case["name"], case["args"], case["mode"])
+        return acc.disagreements
+    return _recheck_main(case, tier)
